@@ -244,7 +244,11 @@ func (a *Args) String() string {
 		}
 	}
 	if a.Elided {
-		v = append(v, "...")
+		// Do not append to v, it may be a.Processed.
+		if len(v) == 0 {
+			return "..."
+		}
+		return strings.Join(v, ", ") + ", ..."
 	}
 	return strings.Join(v, ", ")
 }
